@@ -230,14 +230,16 @@ def wrapper_source(modname, ob, params, post, verif_dir, fname='ob'):
     """Python source of a module holding the flat wrapper with the given postcondition."""
     flat = []
     pres = []
-    for name in ob.fn.__code__.co_varnames[:ob.fn.__code__.co_argcount]:
+    allargs = ob.fn.__code__.co_varnames[:ob.fn.__code__.co_argcount]
+    # parameters of the function that the obligation does not declare keep their Python defaults
+    argnames = [a for a in allargs if a in params]
+    for name in argnames:
         p = params[name]
         for fl, ann, pre in p.flat(name):
             flat.append((fl, ann))
             pres.extend(pre)
     pres.extend(ob.pre)
-    argnames = ob.fn.__code__.co_varnames[:ob.fn.__code__.co_argcount]
-    call = ', '.join(params[a].build(a) for a in argnames)
+    call = ', '.join('%s=%s' % (a, params[a].build(a)) for a in argnames)
     sig = ', '.join('%s: %s' % (n, a) for n, a in flat)
     lines = []
     lines.append('import sys')
